@@ -340,6 +340,9 @@ pub fn run_case(case_seed: u64, shard: &mut Shard, trace: bool) -> Option<Failur
                 }
             }
             force_hidden.clear();
+            // a reverted blind write need not stay loaded in the track: force_write's precondition
+            // (substate already loaded) is only assumed again after the next read/write of it
+            accessed.retain(|k| !blind.contains(k) || model.snap.contains_key(k));
             model.revert();
             dead_new.append(&mut live_new);
             accessed.retain(|k| !dead_new.contains(&k.0));
